@@ -27,7 +27,7 @@ func init() {
 		Technique: "SSA pattern check of the flit-count computation, reassembly key/count provenance, fact-dominance of the completion test, plus the hand-off/compaction invariants of the endpoint's incoming path",
 		Explanation: "Decides on noc/networking/switching/endpoint: (flit-count) the number of flits is 1 for a zero-size message and otherwise ceil(encoded bytes / flit size) computed as (b-1)/F+1 from TrafficBytes, EncodingOverhead and FlitByteSize; exactly that many flits are created, each stamped with the count and the message's metadata; " +
 			"(reassembly) an arriving flit joins the assembly record whose message ID equals the flit payload's message ID (not the flit's own ID), a new record starts at one arrival and requires the flit's stamped count, otherwise the arrival count is incremented, and the flit is dequeued exactly once; (completion) a message is emitted only on the path where arrived < required is false; " +
-			"(compaction) incomplete records are all kept and complete ones all emitted — the loop is never left before the truncation; (delivery) reassembled messages are delivered as a consumed prefix. (cached-index) an index into a State slice that is remembered in a middleware field is refreshed by every function that removes elements from that slice.",
+			"(compaction) incomplete records are all kept and complete ones all emitted — the loop is never left before the truncation; (delivery) reassembled messages are delivered as a consumed prefix. (cached-index) an index into a State slice that is remembered in a middleware field is refreshed by every function that removes elements from that slice. (divisor-config) a Spec field of the endpoint that is used as a divisor is compared with 0 somewhere in the package.",
 		NotDecided:  "arithmetic overflow of the byte computation; float rounding of the overhead; behaviour when a sender stamps inconsistent counts.",
 		Assumptions: []string{"message IDs are unique among in-flight messages (C41)"},
 	}, runC31)
@@ -438,6 +438,7 @@ func runC29(c *Ctx) {
 }
 
 func runC31(c *Ctx) {
+	divisorConfigRule(c, "divisor-config", func(pp string) bool { return strings.HasPrefix(pp, ModPath+"/noc/networking/switching/endpoint") }, 1)
 	cachedIndexRule(c, "cached-index", func(pp string) bool { return strings.HasPrefix(pp, ModPath+"/noc/") })
 	p := c.P
 	handOffRule(c, []string{"noc/networking/switching/endpoint"}, 8, 2, 1)
